@@ -434,7 +434,14 @@ def run_case(case, workdir):
 
 
 def run(rep, tier, rng):
-    H.setup_env("c14")
+    root = H.setup_env("c14")
+    try:
+        _run(rep, tier, rng)
+    finally:
+        _cleanup(root)
+
+
+def _run(rep, tier, rng):
     thorough = tier == "thorough"
     cases = []
     for p in sorted(glob.glob(os.path.join(C.VERIF, "corpus", PROP, "*.json"))):
@@ -462,6 +469,11 @@ def run(rep, tier, rng):
     bad = C.coq_bad_indices(PROP, "http", ["Model.HttpClient", "Model.HttpClientCases"], "hcase_ok", "hcase", items, shard=250 if thorough else 60)
     for i in bad[:50]:
         rep.disagreements.append({"case": kept[i][0], "implementation": kept[i][1]})
+
+
+def _cleanup(root):
+    shutil.rmtree(root, ignore_errors=True)
+    shutil.rmtree(os.path.join(C.BUILD, "scratch", "c14"), ignore_errors=True) if not glob.glob(os.path.join(C.BUILD, "scratch", "c14", "*")) else None
 
 
 def replay(obj):
